@@ -309,11 +309,11 @@ func c08Edits(base lpScript, key *lpKey, nonce []byte) []struct {
 				// the format and its data are edited together (a server's
 				// data always matches its format)
 				for name, ts := range map[string][]int{
-					"two-params":        {srv.TInt4, srv.TLongBinary},
-					"four-params":       {srv.TInt4, srv.TLongBinary, srv.TLongBinary, srv.TLongBinary},
-					"cipher-as-int2":    {srv.TInt2, srv.TLongBinary, srv.TLongBinary},
-					"key-as-varbinary":  {srv.TInt4, srv.TVarBinary, srv.TLongBinary},
-					"nonce-as-varchar":  {srv.TInt4, srv.TLongBinary, srv.TVarChar},
+					"two-params":       {srv.TInt4, srv.TLongBinary},
+					"four-params":      {srv.TInt4, srv.TLongBinary, srv.TLongBinary, srv.TLongBinary},
+					"cipher-as-int2":   {srv.TInt2, srv.TLongBinary, srv.TLongBinary},
+					"key-as-varbinary": {srv.TInt4, srv.TVarBinary, srv.TLongBinary},
+					"nonce-as-varchar": {srv.TInt4, srv.TLongBinary, srv.TVarChar},
 				} {
 					s := base.clone()
 					s.Rounds[r][i] = lpParamFmt(ts...)
